@@ -73,7 +73,7 @@ func emitAck2(o *hx.Out, acks [][]byte, tag string) {
 // famC07 is split in three parts which TestFamily interleaves with the other properties' records, so that the
 // SHA-256-heavy cases spread over several Coq evaluation shards.
 func famC07a(r *hx.Rng, o *hx.Out) {
-	n := hx.N(40, 1000)
+	n := hx.N(40, 500)
 
 	// the Gallina SHA-256 against crypto/sha256 around the padding boundaries
 	for _, l := range []int{0, 1, 3, 54, 55, 56, 57, 63, 64, 65, 111, 119, 120, 127, 128, 129, 191, 192, 200, 300} {
@@ -118,7 +118,7 @@ func famC07a(r *hx.Rng, o *hx.Out) {
 }
 
 func famC07b(r *hx.Rng, o *hx.Out) {
-	n := hx.N(40, 1000)
+	n := hx.N(40, 500)
 	// v2 packets
 	for i := 0; i < n; i++ {
 		np := 1
@@ -185,7 +185,7 @@ func famC07b(r *hx.Rng, o *hx.Out) {
 }
 
 func famC07c(r *hx.Rng, o *hx.Out) {
-	n := hx.N(40, 1000)
+	n := hx.N(40, 500)
 	// v2 acknowledgements: order and count of the app acknowledgements
 	for i := 0; i < n; i++ {
 		na := r.Intn(5)
